@@ -220,6 +220,8 @@ struct World {
     /// when the message is rolled back, but their ID stays in the trace)
     id_cache: RefCell<std::collections::HashMap<u64, [u8; 20]>>,
     unresolved: Cell<bool>,
+    /// (0xff.. ID form, Ethereum address) of the f410 actors the current parse resolved
+    canon: RefCell<Vec<([u8; 20], [u8; 20])>>,
 }
 
 const EPOCH: i64 = 100_000;
@@ -315,7 +317,7 @@ fn new_evm_world() -> World {
     let sproxy = deploy_helper(&v, &acct, &proxy_code(true));
     let cproxy = deploy_helper(&v, &acct, &proxy_code(false));
     v.take_invocations();
-    World { v, acct, echo, reverter, sproxy, cproxy, deployed: 0, id_cache: RefCell::new(Default::default()), unresolved: Cell::new(false) }
+    World { v, acct, echo, reverter, sproxy, cproxy, deployed: 0, id_cache: RefCell::new(Default::default()), unresolved: Cell::new(false), canon: RefCell::new(vec![]) }
 }
 
 // ------------------------------------------------------------------------------------------------
@@ -355,6 +357,7 @@ struct Parsed {
     msgs: Vec<Msg>,
     logs: Vec<(Vec<BigUint>, Vec<u8>)>,
     skip: Option<String>,
+    canon: Vec<([u8; 20], [u8; 20])>,
 }
 
 fn eth_of(w: &World, a: &Address) -> [u8; 20] {
@@ -367,6 +370,7 @@ fn eth_of(w: &World, a: &Address) -> [u8; 20] {
                             if da.namespace() == EAM_ACTOR_ID && da.subaddress().len() == 20 {
                                 let e: [u8; 20] = da.subaddress().try_into().unwrap();
                                 w.id_cache.borrow_mut().insert(*id, e);
+                                w.canon.borrow_mut().push((eth_from_id(*id), e));
                                 return e;
                             }
                         }
@@ -374,6 +378,7 @@ fn eth_of(w: &World, a: &Address) -> [u8; 20] {
                 }
                 None => {
                     if let Some(e) = w.id_cache.borrow().get(id) {
+                        w.canon.borrow_mut().push((eth_from_id(*id), *e));
                         return *e;
                     }
                     if *id >= 100 {
@@ -408,6 +413,7 @@ fn block_bytes(b: &Option<IpldBlock>) -> Vec<u8> {
 fn parse_node(w: &World, me: &Address, subs: &[InvocationTrace], events: &[EmittedEvent]) -> Parsed {
     let mut p = Parsed::default();
     w.unresolved.set(false);
+    w.canon.borrow_mut().clear();
     let mut i = 0;
     while i < subs.len() {
         let t = &subs[i];
@@ -493,6 +499,9 @@ fn parse_node(w: &World, me: &Address, subs: &[InvocationTrace], events: &[Emitt
         w.unresolved.set(false);
         p.skip = Some("unresolvable-dst".into());
     }
+    p.canon = w.canon.borrow().clone();
+    p.canon.sort();
+    p.canon.dedup();
     for e in events {
         let mut topics = vec![];
         let mut data = vec![];
@@ -563,6 +572,7 @@ struct CallIn<'a> {
     caller: [u8; 20],
     value: u64,
     hashes: Vec<(Vec<u8>, Vec<u8>)>,
+    canon: &'a [([u8; 20], [u8; 20])],
     ext: &'a [ExtRes],
 }
 fn coq_call_in(w: &World, c: &CallIn) -> String {
@@ -579,7 +589,7 @@ fn coq_call_in(w: &World, c: &CallIn) -> String {
         }
     }
     format!(
-        "(mkci {} {} {} {} {} {} {} {} {} {} {} {} {} {})",
+        "(mkci {} {} {} {} {} {} {} {} {} {} {} {} {} {} {})",
         coq_bytes(c.calldata),
         zs(&c.balance),
         zs(&big(&c.address)),
@@ -593,6 +603,7 @@ fn coq_call_in(w: &World, c: &CallIn) -> String {
         zs(&big(&keccak(&w.reverter.code))),
         cf::list(hs),
         extra,
+        cf::list(c.canon.iter().map(|(a, b)| format!("({}, {})", zs(&big(a)), zs(&big(b))))),
         cf::list(c.ext.iter().map(|e| format!("({})", coq_ext(e)))),
     )
 }
@@ -798,6 +809,7 @@ fn run_case(w: &mut World, pc: &PCase) -> CaseOut {
             caller: eth_from_id(acct_id),
             value: pc.deploy_value,
             hashes,
+            canon: &parsed.canon,
             ext: &parsed.ext,
         };
         let mut o = vec![dcode.to_string()];
@@ -870,7 +882,8 @@ fn run_case(w: &mut World, pc: &PCase) -> CaseOut {
                     caller: eth_from_id(acct_id),
                     value: inv.value,
                     hashes,
-                    ext: &parsed.ext,
+                    canon: &parsed.canon,
+            ext: &parsed.ext,
                 };
                 let mut o = vec![c.to_string()];
                 obs_bytes(&mut o, &data);
@@ -984,7 +997,8 @@ fn run_case(w: &mut World, pc: &PCase) -> CaseOut {
                     caller: chain.last().unwrap().eth,
                     value: 0,
                     hashes,
-                    ext: &parsed.ext,
+                    canon: &parsed.canon,
+            ext: &parsed.ext,
                 };
                 let mut o = vec![zs(&flag)];
                 obs_bytes(&mut o, &data);
